@@ -243,6 +243,18 @@ func startWatchdog() {
 	}()
 }
 
+// Bubble runs f in a synctest bubble from a helper goroutine: when the inner test is marked
+// failed (under -race the testing package does that as soon as the detector has reported
+// anything) synctest.Test calls FailNow, which must not unwind the exploration loop.
+func Bubble(t *testing.T, f func(*testing.T)) {
+	done := make(chan struct{})
+	go func() {
+		defer close(done)
+		synctest.Test(t, f)
+	}()
+	<-done
+}
+
 // runOne runs one execution following prefix, then default choices.
 func runOne(t *testing.T, o *SchedOpts, prefix []int, trace bool) *Exec {
 	x := &Exec{T: t, opts: o, prefix: prefix, trace: trace, names: map[int64]int{}, sidName: map[int]string{},
@@ -255,16 +267,19 @@ func runOne(t *testing.T, o *SchedOpts, prefix []int, trace bool) *Exec {
 		o.MaxSteps = 5000
 	}
 	startWatchdog()
-	synctest.Test(t, func(t *testing.T) {
-		rt.RaceDisable()
-		defer rt.RaceEnable()
+	Bubble(t, func(t *testing.T) {
 		x.start = time.Now()
 		x.s = rt.Activate()
 		if len(o.Focus) > 0 {
 			x.s.SetFocus(o.Focus)
 		}
 		defer rt.Deactivate()
+		// the scenario is built with synchronisation events visible to the race detector
+		// (goroutine creation orders the set-up before the harness goroutines, as in the real
+		// program); only the controller's scheduling loop runs with them switched off
 		o.Body(x)
+		rt.RaceDisable()
+		defer rt.RaceEnable()
 		x.control()
 		if o.Check != nil && x.Diverged == "" {
 			// the oracle runs with the scheduler switched off (its own lock operations must not park)
